@@ -148,6 +148,15 @@ class Sut:
         _compile_many([([CC] + flags + list(extra) + ['-I' + os.path.join(V, 'sut'), '-I' + SRC, '-c', src, '-o', o], o)])
         return o
 
+    def repo_obj(self, name, variant='asan'):
+        """Compile one more source file of the repo (e.g. logger.c) for a harness."""
+        flags = _flags(variant)
+        d = os.path.join(self.dir, variant)
+        os.makedirs(d, exist_ok=True)
+        o = os.path.join(d, 'repo_' + name + '.o')
+        _compile_many([([CC] + flags + ['-I' + SRC, '-c', os.path.join(SRC, name + '.c'), '-o', o], o)])
+        return o
+
     def program(self, name, variant='plain'):
         """Build one of the repo's own programs (echse, echsx, echsq) from the tree."""
         flags = _flags(variant)
